@@ -78,7 +78,7 @@ OrderCases == { [t |-> Prelude \o <<SPrint(f.e), SPrint(Id("A")), SPrint(Id("O")
 (* truthiness: the same value decides identically in if, while, for, !, or, and *)
 TruthCases ==
   { [t |-> Prelude \o RetDecls \o << SIf(v[2], SPrint(Lit(S("T"))), SPrint(Lit(S("F")))),
-                         SPrint(Un("!", v[2])),
+                         SPrint(Un("!", v[2])), SPrint(Un("!", Un("!", v[2]))), SPrint(Arr(<<Un("!", Un("!", Un("!", v[2])))>>)),
                          SPrint(Log("or", Pr(1, v[2]), Pr(2, Lit(S("R"))))), SPrint(LogS("and", Pr(3, v[2]), Pr(4, Lit(S("R"))))),
                          SVar("n", Num(0)),
                          SWhile(v[2], SBlock(<<SPrint(Lit(S("W"))), SBreak>>)),
